@@ -145,7 +145,16 @@ func execCases(casesPath, tracePath string) {
 				os.Exit(0)
 			}
 		}(head.Case)
-		run(raw, w)
+		func() {
+			// the harness consumes what the library returns (dereferences returned packets, indexes returned
+			// slices): a result that crashes this consumer is an outcome of the case, recorded as such
+			defer func() {
+				if r := recover(); r != nil {
+					w.Emit(Ev{"ev": "crash", "msg": fmt.Sprint(r)})
+				}
+			}()
+			run(raw, w)
+		}()
 		close(done)
 		n++
 	}
